@@ -1,10 +1,11 @@
-(* Proofs/C18Float.v -- the same loop over binary64 (PrimFloat primitives evaluated by the kernel's vm): the invariant
-   "expectile strictly inside (0,1)" FAILS in floating point.  Only PrimFloat / Uint63-level modules are used (no
-   Floats.FloatAxioms): every fact here is a closed computation. *)
+(* Proofs/C18Float.v -- the same loop over binary64 (PrimFloat primitives evaluated by the kernel's vm), bit-exact with
+   CPython.  Only PrimFloat / Uint63-level modules are used (no Floats.FloatAxioms): every fact here is a closed computation.
+   Former S11 witness: before the repair (no stall exit) the 53rd upward midpoint from 0.5 rounded to exactly 1.0 and the
+   refit raised ValueError; with the stall exit the loop stops there, the expectile stays 1 - 2^-53. *)
 From Coq Require Import ZArith Bool List PrimFloat.
 From PG Require Import Gen.FitQuantile Model.FitQuantile.
 
-(* witness: a quantile the fit can never reach from below (observed ratio stays 0, e.g. because the data set is tiny),
+(* a quantile the fit can never reach from below (observed ratio stays 0, e.g. because the data set is tiny),
    tol below the resolution of the ratio, budget 100 *)
 Definition w_ratio : nat -> float := fun _ => 0%float.
 Definition w_quantile : float := 0x1.ff7ced916872bp-1%float.   (* 0.999 *)
@@ -17,30 +18,29 @@ Lemma float_witness_ok : f_inside w_e0 = true /\ Gen_fq_bad_quantile_f w_quantil
   Gen_fq_bad_max_iter w_max_iter = false.
 Proof. vm_compute. repeat split. Qed.
 
-(* 52 refits keep the expectile inside (it is 1 - 2^-53, the largest double below 1) ... *)
-Lemma float_52_inside : let s := w_run 52 in f_refits s = 52%nat /\ f_raised s = false /\ f_inside (f_e s) = true /\
-  PrimFloat.eqb (f_e s) 0x1.fffffffffffffp-1%float = true.
-Proof. vm_compute. repeat split. Qed.
-(* ... the 53rd midpoint (1 + (1 - 2^-53)) / 2 rounds to exactly 1.0: set_params stores it and the refit's
-   _validate_params raises ValueError; the loop is left by the exception with 48 iterations of budget unused *)
-Lemma float_53_saturates : let s := w_run (Z.to_nat w_max_iter) in
-  f_raised s = true /\ f_broke s = false /\ f_refits s = 52%nat /\ f_n s = 52%Z /\
-  PrimFloat.eqb (f_e s) 1%float = true /\ PrimFloat.eqb (f_e s) (f_max s) = true /\ f_inside (f_e s) = false /\
-  Gen_expectile_out_of_range_f (f_e s) = true /\ length (f_trace s) = 53%nat.
+(* upward chain: 52 refits reach 1 - 2^-53 (the largest double below 1); the 53rd midpoint (1 + (1 - 2^-53)) / 2 rounds to
+   exactly 1.0 = max_: the stall test fires, nothing is stored or fitted, no ValueError, expectile strictly inside (0,1) *)
+Theorem float_upward_chain_stops : let s := w_run (Z.to_nat w_max_iter) in
+  f_stalled s = true /\ f_raised s = false /\ f_broke s = false /\ f_refits s = 52%nat /\ f_n s = 52%Z /\
+  PrimFloat.eqb (f_e s) 0x1.fffffffffffffp-1%float = true /\ f_inside (f_e s) = true /\
+  PrimFloat.eqb (Gen_fq_new_expectile_f (f_min s) (f_max s)) 1%float = true /\ PrimFloat.eqb (f_max s) 1%float = true /\
+  forallb f_inside (f_trace s) = true /\ length (f_trace s) = 52%nat.
 Proof. vm_compute. repeat split. Qed.
 
-Theorem bisect_float_refuted :
-  exists (ratio : nat -> float) (quantile tol e0 : float) (max_iter : Z),
-    f_inside e0 = true /\ Gen_fq_bad_quantile_f quantile = false /\ Gen_fq_bad_tol_f tol = false /\ Gen_fq_bad_max_iter max_iter = false /\
-    let s := fqf_loop (Z.to_nat max_iter) quantile tol max_iter ratio (fqf_init e0) in
-    f_inside (f_e s) = false /\ PrimFloat.eqb (f_e s) 1%float = true /\ f_raised s = true /\ f_refits s = 52%nat /\ (f_n s < max_iter)%Z.
-Proof. exists w_ratio, w_quantile, w_tol, w_e0, w_max_iter. vm_compute. repeat split. Qed.
+(* downward chain: quantile 0.001, ratio stuck at 1, budget 2000: 1073 refits reach 2^-1074 (the smallest positive double);
+   the next midpoint (2^-1074 + 0) / 2 rounds to 0.0 = min_: stall exit, expectile strictly inside (0,1) *)
+Definition d_run : fqstf := fqf_loop 2000 0x1.0624dd2f1a9fcp-10%float w_tol 2000%Z (fun _ => 1%float) (fqf_init w_e0).
+Theorem float_downward_chain_stops :
+  f_stalled d_run = true /\ f_raised d_run = false /\ f_refits d_run = 1073%nat /\
+  PrimFloat.eqb (f_e d_run) 0x0.0000000000001p-1022%float = true /\ f_inside (f_e d_run) = true /\
+  PrimFloat.eqb (Gen_fq_new_expectile_f (f_min d_run) (f_max d_run)) 0%float = true /\
+  forallb f_inside (f_trace d_run) = true.
+Proof. vm_compute. repeat split. Qed.
 
-Corollary bisect_float_not_invariant :
-  ~ (forall ratio quantile tol e0 max_iter fuel, f_inside e0 = true -> Gen_fq_bad_quantile_f quantile = false -> Gen_fq_bad_tol_f tol = false ->
-       Gen_fq_bad_max_iter max_iter = false -> f_inside (f_e (fqf_loop fuel quantile tol max_iter ratio (fqf_init e0))) = true).
-Proof. intros H.
-  assert (E : f_inside (f_e (fqf_loop 100 w_quantile w_tol w_max_iter w_ratio (fqf_init w_e0))) = false) by (vm_compute; reflexivity).
-  assert (T : f_inside (f_e (fqf_loop 100 w_quantile w_tol w_max_iter w_ratio (fqf_init w_e0))) = true).
-  { apply H; vm_compute; reflexivity. }
-  rewrite E in T. discriminate T. Qed.
+(* what the stall test is for: without it (the pre-repair loop) the same upward chain stores exactly 1.0 *)
+Fixpoint up_chain (n : nat) (e : float) : float :=
+  match n with O => e | S k => up_chain k (Gen_fq_new_expectile_f e 1%float) end.
+Lemma float_unguarded_midpoint_reaches_one :
+  f_inside (up_chain 52 0.5%float) = true /\ PrimFloat.eqb (up_chain 53 0.5%float) 1%float = true /\
+  Gen_expectile_out_of_range_f (up_chain 53 0.5%float) = true.
+Proof. vm_compute. repeat split. Qed.
